@@ -294,6 +294,7 @@ func TestVerifC18API(t *testing.T) {
 
 	opt := cluster.CreateOptionsForTest(dir)
 	opt.HomeDir = dir
+	opt.ClusterRequestTimeout = "120s" // lock / etcd request timeout: generous, the machine may be loaded
 	cls, err := cluster.New(opt)
 	if err != nil {
 		t.Fatal(err)
@@ -313,7 +314,7 @@ func TestVerifC18API(t *testing.T) {
 		opt2.Name = "verif-secondary-api"
 		opt2.ClusterName = opt.ClusterName
 		opt2.ClusterRole = "secondary"
-		opt2.ClusterRequestTimeout = "10s"
+		opt2.ClusterRequestTimeout = "120s"
 		opt2.Cluster.PrimaryListenPeerURLs = opt.Cluster.InitialAdvertisePeerURLs
 		opt2.APIAddr = fmt.Sprintf("localhost:%d", ports[0])
 		opt2.HomeDir = dir + "/sec"
@@ -331,5 +332,5 @@ func TestVerifC18API(t *testing.T) {
 		c18Servers = append(c18Servers, s1)
 		c18Handlers = append(c18Handlers, c18Router(s1))
 	}
-	verifh.Run(t, c18Gen, c18Exec, 40*time.Second)
+	verifh.Run(t, c18Gen, c18Exec, 600*time.Second)
 }
